@@ -17,4 +17,5 @@ def obligations(tier):
             obls.append(api_step(op, it, ot, 2, 2))
     obls += dft_set(tier)      # the DFT stage: block bookkeeping and phase carry of the real dft_stage_fn
     obls += [drv(1, ns=1, item=8), drv(1, ns=0, item=8)]
+    obls += fifo_obls()      # fifo.h: reserve / compaction / growth / read / trim
     return obls
